@@ -1703,8 +1703,16 @@ namespace cds { namespace intrusive {
                             bkoff();
                             m_Stat.onMarkFailed();
                         }
-                        else if ( pSucc.bits() != nMask )
+                        else if ( pSucc.bits() != nMask ) {
+                            // pDel is being removed by a thread that uses the other mark (erase vs extract).
+                            // That thread wins; it makes the removal take effect when it marks level 0.
+                            // Do not report "not removed" before that point, otherwise our caller
+                            // (and everything that starts after it returns) can still see the key present.
+                            back_off bkoffWait;
+                            while ( pDel->next( 0 ).load( memory_model::memory_order_acquire ).bits() == 0 )
+                                bkoffWait();
                             return false;
+                        }
                     }
                 }
             }
